@@ -219,7 +219,8 @@ def srq_subscribe(E):
     if E.path.choice(2, 'initial_request_n'):
         n = E.fresh_int('n')
         try:
-            E.call(E.getattr(h, 'initial_request_n'), [n])
+            chained = E.call(E.getattr(h, 'initial_request_n'), [n])
+            E.prove('initial_request_n:returns_the_stream_itself[the documented call chain .initial_request_n(n).subscribe(s)]', chained is h)
         except PyExc as e:
             E.cover('bad-n')
             E.prove('initial_request_n:rejects_only_non_positive', I(n) <= 0)
